@@ -42,7 +42,8 @@ def base_env():
 
 
 def ensure_driver():
-    if not os.path.exists(DRIVER):
+    src = os.path.join(VERIF, "driver", "src", "main.rs")
+    if not os.path.exists(DRIVER) or (os.path.exists(src) and os.path.getmtime(src) > os.path.getmtime(DRIVER)):
         build_driver()
 
 
